@@ -76,8 +76,10 @@ func c07Run(t rt.TB, c c07Case) {
 		if len(c.Links) > 1 && strings.Contains(faultPos, ".") {
 			op = strings.SplitN(faultPos, ".", 2)[0] // attribute to the row owning the callback
 			for _, l := range c.Links {
-				if strings.HasPrefix(faultPos, "Tap.") && strings.HasPrefix(l.Op, "Tap") {
-					op = l.Op
+				for _, p := range cat.ByName(l.Op).Pos {
+					if p == faultPos {
+						op = l.Op
+					}
 				}
 			}
 		}
@@ -345,66 +347,66 @@ func TestC07_SingleFaultEnumerated(t *testing.T) {
 	rt.Note("enumerated_scope", fmt.Sprintf("every catalogue row x params x variant x legal scripts of length <= %d x every callback position (operator callbacks, source subscribe function, the observer's three callbacks) x every invocation index of that callback in the run x fault kind (panic error / string / non-error value rotating; returned error for error-aware callbacks)", maxLen))
 }
 
-func TestC07_FaultsInChainsRandom(t *testing.T) {
-	rapid.Check(t, func(t *rapid.T) {
-		n := rapid.IntRange(2, 4).Draw(t, "chainLen")
-		links := make([]cat.Link, n)
-		var positions []string
-		for i := range links {
-			links[i] = genLink(t, true)
-			positions = append(positions, cat.ByName(links[i].Op).Pos...)
+func TestC07_FaultsInChainsRandom(t *testing.T) { rapid.Check(t, propC07FaultsInChainsRandom) }
+
+func propC07FaultsInChainsRandom(t *rapid.T) {
+	n := rapid.IntRange(2, 4).Draw(t, "chainLen")
+	links := make([]cat.Link, n)
+	var positions []string
+	for i := range links {
+		links[i] = genLink(t, true)
+		positions = append(positions, cat.ByName(links[i].Op).Pos...)
+	}
+	if chainDiverges(links) {
+		return
+	}
+	script := genScript(t, 6, 1, 3, []byte{'C', 'E'})
+	calls := dryCalls(links, script)
+	if calls == nil {
+		return
+	}
+	positions = append(positions, posSubscribe)
+	plan := map[string]cat.FaultPlan{}
+	nf := rapid.IntRange(1, 2).Draw(t, "faults")
+	for i := 0; i < nf; i++ {
+		pos := rapid.SampledFrom(positions).Draw(t, "pos")
+		if calls[pos] == 0 {
+			continue
 		}
-		if chainDiverges(links) {
-			return
-		}
-		script := genScript(t, 6, 1, 3, []byte{'C', 'E'})
-		calls := dryCalls(links, script)
-		if calls == nil {
-			return
-		}
-		positions = append(positions, posSubscribe)
-		plan := map[string]cat.FaultPlan{}
-		nf := rapid.IntRange(1, 2).Draw(t, "faults")
-		for i := 0; i < nf; i++ {
-			pos := rapid.SampledFrom(positions).Draw(t, "pos")
-			if calls[pos] == 0 {
-				continue
+		plan[pos] = cat.FaultPlan{At: rapid.IntRange(0, calls[pos]-1).Draw(t, "at"), Kind: rapid.SampledFrom([]string{"perr", "pstr", "pval"}).Draw(t, "kind")}
+	}
+	if len(plan) == 0 {
+		return
+	}
+	// duplicate rows in one chain share a callback position name: skip those chains
+	seen := map[string]bool{}
+	for _, l := range links {
+		for _, p := range cat.ByName(l.Op).Pos {
+			if seen[p] {
+				return
 			}
-			plan[pos] = cat.FaultPlan{At: rapid.IntRange(0, calls[pos]-1).Draw(t, "at"), Kind: rapid.SampledFrom([]string{"perr", "pstr", "pval"}).Draw(t, "kind")}
+			seen[p] = true
 		}
-		if len(plan) == 0 {
-			return
-		}
-		// duplicate rows in one chain share a callback position name: skip those chains
-		seen := map[string]bool{}
-		for _, l := range links {
+	}
+	c := c07Case{Links: links, Script: script, Plan: plan}
+	if tp := c07TerminalFault(c); tp != "" {
+		// listed finding C07-terminal-callback-panic-swallowed: the stream then never
+		// terminates, and a stage below that waits inside Subscribe would hang for ever
+		owner := -1
+		for i, l := range links {
 			for _, p := range cat.ByName(l.Op).Pos {
-				if seen[p] {
-					return
-				}
-				seen[p] = true
-			}
-		}
-		c := c07Case{Links: links, Script: script, Plan: plan}
-		if tp := c07TerminalFault(c); tp != "" {
-			// listed finding C07-terminal-callback-panic-swallowed: the stream then never
-			// terminates, and a stage below that waits inside Subscribe would hang for ever
-			owner := -1
-			for i, l := range links {
-				for _, p := range cat.ByName(l.Op).Pos {
-					if p == tp {
-						owner = i
-					}
-				}
-			}
-			for i := owner + 1; owner >= 0 && i < len(links); i++ {
-				if cat.ByName(links[i].Op).Waits {
-					rt.Excluded(1)
-					return
+				if p == tp {
+					owner = i
 				}
 			}
 		}
-		c07Run(t, c)
-		rt.Case(caseKey("faultchain", fmt.Sprint(links), script, fmt.Sprint(plan)), true, fmt.Sprintf("chain-faults:%d", len(plan)), func() any { return c })
-	})
+		for i := owner + 1; owner >= 0 && i < len(links); i++ {
+			if cat.ByName(links[i].Op).Waits {
+				rt.Excluded(1)
+				return
+			}
+		}
+	}
+	c07Run(t, c)
+	rt.Case(caseKey("faultchain", fmt.Sprint(links), script, fmt.Sprint(plan)), true, fmt.Sprintf("chain-faults:%d", len(plan)), func() any { return c })
 }
